@@ -145,6 +145,12 @@ def explore_all(ctx, prop, exe_san, exe, variant, cov, dist):
     distinct = set()
     pending = []          # offenders, reported smallest first so that the replay is a small one
 
+    newcount, known_kept, known_total = [0], {}, {}
+
+    def is_known(sig):
+        return any(f["property"] == ctx.prop and f.get("status") == "open" and re.fullmatch(f["signature"], sig)
+                   for f in ctx.findings.get("findings", []))
+
     def consume(results):
         """monitors + acceptor for a list of runs"""
         batches = [sched.project_fan(r, variant) if r["crash"] is None and not r["bug"] else None for r in results]
@@ -171,19 +177,18 @@ def explore_all(ctx, prop, exe_san, exe, variant, cov, dist):
                                            "trace": [l[3:] for l in b if l.startswith("ev ")], "peak": m["peak"]})
             for p, sig, what in sched.offenders(r):
                 if p in (prop, "*"):
+                    if not is_known(sig):
+                        newcount[0] += 1
+                    elif known_kept.get(sig, 0) >= 300:
+                        known_total[sig] = known_total.get(sig, 0) + 1
+                        continue                  # enough examples of a known finding are kept
+                    known_kept[sig] = known_kept.get(sig, 0) + 1
+                    known_total[sig] = known_total.get(sig, 0) + 1
                     pending.append((len(r["steps"]), sig, what, r))
 
-    def new_violations():
-        """offending runs that no open finding explains (enough of them => stop exploring, report)"""
-        k = 0
-        for _, sig, _, _ in pending:
-            if not any(f["property"] == ctx.prop and f.get("status") == "open" and re.fullmatch(f["signature"], sig)
-                       for f in ctx.findings.get("findings", [])):
-                k += 1
-        return k
-
     def enough():
-        return new_violations() >= 30 or dist["rejects"] >= 200
+        """enough offending runs that no open finding explains => stop exploring, report"""
+        return newcount[0] >= 30 or dist["rejects"] >= 200
 
     # 1. corpus, then exhaustive exploration of tiny configurations (gives the smallest failing schedules)
     consume(sched.run_many(exe_san, corpus_cases(), ctx.scratch))
@@ -206,7 +211,7 @@ def explore_all(ctx, prop, exe_san, exe, variant, cov, dist):
                 consume(buf[:])
                 del buf[:]
         st = sched.explore(exe, ctx.scratch, base, msp, on, max_runs=30000 if ctx.quick() else 600000,
-                           stop=lambda: len(pending) >= 2000)
+                           stop=enough)
         consume(buf)
         st.update({"N": n, "fanout": f, "max_spurious": msp, "personality": pers})
         dist["dfs"].append(st)
@@ -248,4 +253,6 @@ def explore_all(ctx, prop, exe_san, exe, variant, cov, dist):
             ctx.offender(sig, what, pack(r))
     cov["distinct_nontrivial"] = len(distinct)
     cov["traces_validated_against_impl"] = cov["evaluations"]
+    for k, v in known_total.items():
+        seen[k] = max(seen.get(k, 0), v)
     cov["offending_runs"] = {k: v for k, v in seen.items()}
